@@ -80,6 +80,24 @@ func TestC02(t *testing.T) {
 							continue
 						}
 						sigs = append(sigs, &signed{ki, ci, hi, di, incl, s})
+						// interoperability with the documented signing format, both ways: a
+						// signature made here must verify for an independent verifier, and a
+						// signature made by an independent signer over the same key, context,
+						// hash type and data must verify here (signatures travel between
+						// processes; nothing may depend on what this process signed before)
+						if !ref.VerifySig(stdPub(ki), ctxs[ci], int32(hts[hi]), datas[di], s.GetSigData()) {
+							run.Violation("signature-not-over-documented-body", "NewSignature("+desc+") does not verify for an independent verifier of ctx || \" - SIGN - \" || itoa(hash type) || \" - SIGN - \" || H(data)", desc)
+						}
+						if body, okb := ref.SignBody(ctxs[ci], int32(hts[hi]), datas[di]); okb {
+							rs := &peer.Signature{HashType: hts[hi], SigData: ed25519.Sign(keys[ki].Std, body)}
+							a, pn := verify("reference-signed", desc, rs, ctxs[ci], keys[ki].Pub, datas[di])
+							if !pn {
+								acc.Case("reference-signed", desc, true, cls(a))
+								if !a {
+									run.Violation("rejects-authentic/reference-signed", "a signature made by an independent signer over the same key, context, hash type and data is rejected: "+desc, desc)
+								}
+							}
+						}
 						// honest object passes Validate
 						okv, pv := validate("honest", desc, s)
 						if !pv {
